@@ -6,6 +6,9 @@ import BqVerif.Proofs.CircViews
 import BqVerif.Proofs.CircKahn2
 import BqVerif.Proofs.CircPopQudit
 import BqVerif.Proofs.CircUnfold
+import BqVerif.Proofs.CircBatchUnfold
+import BqVerif.Proofs.CircRemoveAll
+import BqVerif.Proofs.CircSlice
 /-! # C05 — all views of a Circuit stay mutually consistent after every edit
 
 The views (`next/prev/front/rear/first_on/last_on`, counters, iteration) are *functions of the
@@ -234,5 +237,55 @@ example : Blocks.Ok [(1000, (⟨[2, 2], [[⟨1, [], [0], [2]⟩], [⟨6, [], [0,
       List.mem_cons, List.not_mem_nil, or_false] at ho
     rcases ho with rfl | rfl <;> simp [Circ.numQudits]
   · simp at h
+
+/-- **batch_unfold keeps the invariant**, for ANY list of points (in range or not, idle or not,
+blocks or not, with duplicates or not — whether the batch completes or stops with an error after
+having unfolded some blocks).  `batchUnfold` models the repaired call (/repo a12fa38): the blocks
+are unfolded from the last to the first and each one is located again (`seekOp`) from its old
+cycle on, because unfolding another block of the same cycle opens new cycles in front of it. -/
+theorem C05_inv_batch_unfold (c : Circ) (b : Blocks) (hb : b.Ok) (pts : List (Int × Int))
+    (hinv : c.Inv) :
+    (c.batchUnfold b pts).1.Inv ∧ (c.batchUnfold b pts).1.radixes = c.radixes :=
+  batchUnfold_inv c b hb pts hinv
+
+-- non-vacuity: two blocks in ONE cycle; unfolding the later one (on (3,2)) opens a cycle in front
+-- of the other, which is then found at cycle 1 (not at its old cycle 0) and unfolded there; the
+-- duplicate point (-1, 1) collapses; an idle / out-of-range point changes nothing
+example :
+    let body : Circ := ⟨[2, 2], [[⟨1, [], [0], [2]⟩], [⟨6, [], [0, 1], [2, 2]⟩]]⟩
+    let b : Blocks := [(1000, body)]
+    let blkA : Op := ⟨1000, [], [0, 1], [2, 2]⟩
+    let blkB : Op := ⟨1000, [], [3, 2], [2, 2]⟩
+    let c : Circ := ⟨[2, 2, 2, 2], [[blkA, blkB]]⟩
+    c.invB = true ∧
+      (c.unfold b (0, 3)).1.cycles = [[⟨1, [], [3], [2]⟩], [blkA, ⟨6, [], [3, 2], [2, 2]⟩]] ∧
+      (c.unfold b (0, 3)).1.seekOp blkA 0 0 2 = 1 ∧
+      c.batchUnfold b [(0, 3), (0, 0), (-1, 1)] =
+        (⟨[2, 2, 2, 2], [[⟨1, [], [3], [2]⟩], [⟨1, [], [0], [2]⟩],
+          [⟨6, [], [3, 2], [2, 2]⟩, ⟨6, [], [0, 1], [2, 2]⟩]]⟩, .ok ()) ∧
+      (c.batchUnfold b [(0, 3), (0, 0), (-1, 1)]).1.invB = true ∧
+      c.batchUnfold b [(0, 3), (1, 0)] = (c, .error .index) := by decide
+
+/-- **remove_all keeps the invariant**, for every predicate (operation or gate to remove) -/
+theorem C05_inv_remove_all (c : Circ) (hinv : c.Inv) (pred : Op → Bool) :
+    (c.removeAll pred).Inv ∧ (c.removeAll pred).radixes = c.radixes :=
+  ⟨removeAll_inv c hinv pred, by rw [removeAll_eq c hinv pred]⟩
+
+/-- **get_slice returns a circuit satisfying the invariant** (and so does `batch_pop`, whose
+returned circuit is the same slice) -/
+theorem C05_inv_slice (c : Circ) (hinv : c.Inv) (pts : List (Int × Int)) (s : Circ)
+    (h : c.getSlice pts = .ok s) : s.Inv :=
+  getSlice_inv c hinv pts s h
+theorem C05_inv_batch_pop_result (c : Circ) (hinv : c.Inv) (pts : List (Int × Int)) (s : Circ)
+    (h : (c.batchPop pts).2 = .ok s) : s.Inv :=
+  getSlice_inv c hinv pts s (batchPop_returns_getSlice c pts ▸ h)
+
+-- non-vacuity
+example :
+    let c : Circ := ⟨[2, 3, 2], [[⟨1, [], [0], [2]⟩, ⟨3, [], [2], [2]⟩], [⟨6, [], [0, 1], [2, 3]⟩],
+      [⟨2, [], [0], [2]⟩, ⟨7, [], [2, 1], [2, 3]⟩]]⟩
+    c.invB = true ∧ c.getSlice [(-1, 1), (0, 2)] =
+      .ok ⟨[3, 2], [[⟨3, [], [1], [2]⟩], [⟨7, [], [1, 0], [2, 3]⟩]]⟩ ∧
+      (c.batchPop [(-1, 1), (0, 2)]).2 = c.getSlice [(-1, 1), (0, 2)] := by decide
 
 end BqVerif.C05
